@@ -115,21 +115,37 @@ Proof.
 Qed.
 Print Assumptions c09_generated_names_lower_stable.
 
-(* ---- the regenerate-until-unused loop on the column side (anchor_split, translate_select_item): whatever comes out is
-   not in the used set (EXACT comparison), something always comes out, and a name that was free is kept as it is *)
-Theorem generated_names_fresh : forall p used fuel cur n nm n',
-  regen fuel p used cur n = Some (nm, n') -> ~ In nm used.
-Proof. exact regen_fresh. Qed.
+(* ---- the regenerate-until-unused loop `while name.is_none() || used.contains(name) { name = gen_unreserved() }` of
+   assign_names / RelVarNameAssigner (table names) and anchor_split / translate_select_item (column names; their reserved
+   set is empty unless the source has the repair of F33b): whatever comes out is not in the used set (EXACT comparison),
+   something always comes out, a name that was free is kept as it is, and a name that was not kept is a generated one
+   whose lower-cased form is not reserved *)
+Theorem generated_names_fresh : forall lower p reserved used fuel cur n nm n',
+  regen_r fuel lower p reserved used cur n = Some (nm, n') -> ~ In nm used.
+Proof. exact regen_r_fresh. Qed.
 Print Assumptions generated_names_fresh.
 
-Theorem generated_names_terminate : forall p used cur n,
-  exists nm n', regen (S (S (length used))) p used cur n = Some (nm, n').
-Proof. exact regen_terminates. Qed.
+Theorem generated_names_terminate : forall lower p reserved used cur n,
+  (forall k, lower (gen_name p k) = gen_name p k) ->
+  exists nm n', regen_r (S (S (length used))) lower p reserved used cur n = Some (nm, n').
+Proof. exact regen_r_total. Qed.
 Print Assumptions generated_names_terminate.
 
-Theorem user_names_kept : forall p used fuel nm n, ~ In nm used -> regen fuel p used (Some nm) n = Some (nm, n).
-Proof. exact regen_keeps. Qed.
+Theorem user_names_kept : forall lower p reserved used fuel nm n,
+  ~ In nm used -> regen_r fuel lower p reserved used (Some nm) n = Some (nm, n).
+Proof. exact regen_r_keeps. Qed.
 Print Assumptions user_names_kept.
+
+Theorem generated_names_unreserved : forall lower p reserved used fuel cur n nm n',
+  regen_r fuel lower p reserved used cur n = Some (nm, n') ->
+  (cur = Some nm /\ n' = n) \/ ((exists k, n <= k /\ nm = gen_name p k /\ k < n') /\ ~ In (lower nm) reserved).
+Proof. exact regen_with_unreserved. Qed.
+Print Assumptions generated_names_unreserved.
+
+(* with nothing reserved the generator is plain NameGenerator::gen *)
+Theorem generator_without_reserved_names : forall lower p n, gen_table_name lower p [] n = Some (gen_name p n, N.succ n).
+Proof. exact gen_table_name_nil. Qed.
+Print Assumptions generator_without_reserved_names.
 
 (* ---- table names (fix 99a89d3).  AnchorContext::gen_table_name: the result is the generated name of some counter value
    at or after the current one, and its lower-cased form is not in the reserved set; it ends within |reserved|+1 rounds *)
@@ -153,30 +169,6 @@ Theorem generated_table_name_never_captures : forall lower p users n x n',
   (exists k, n <= k /\ x = gen_name p k /\ n' = N.succ k) /\ forall u, In u users -> lower u <> lower x.
 Proof. exact gen_table_name_never_capture. Qed.
 Print Assumptions generated_table_name_never_captures.
-
-(* the loop of assign_names / RelVarNameAssigner around it: not in the used set of the scope (EXACT comparison with the
-   names already taken there), terminates, keeps a free name, and a name it did not keep is generated and unreserved *)
-Theorem table_loop_fresh : forall lower p reserved used fuel cur n nm n',
-  regen_r fuel lower p reserved used cur n = Some (nm, n') -> ~ In nm used.
-Proof. exact regen_r_fresh. Qed.
-Print Assumptions table_loop_fresh.
-
-Theorem table_loop_terminates : forall lower p reserved used cur n,
-  (forall k, lower (gen_name p k) = gen_name p k) ->
-  exists nm n', regen_r (S (S (length used))) lower p reserved used cur n = Some (nm, n').
-Proof. exact regen_r_total. Qed.
-Print Assumptions table_loop_terminates.
-
-Theorem table_loop_keeps : forall lower p reserved used fuel nm n,
-  ~ In nm used -> regen_r fuel lower p reserved used (Some nm) n = Some (nm, n).
-Proof. exact regen_r_keeps. Qed.
-Print Assumptions table_loop_keeps.
-
-Theorem table_loop_unreserved : forall lower p reserved used fuel cur n nm n',
-  regen_r fuel lower p reserved used cur n = Some (nm, n') ->
-  (cur = Some nm /\ n' = n) \/ ((exists k, n <= k /\ nm = gen_name p k /\ k < n') /\ ~ In (lower nm) reserved).
-Proof. exact regen_with_unreserved. Qed.
-Print Assumptions table_loop_unreserved.
 
 (* CTE names / FROM aliases of one scope are pairwise distinct, for every list of declared-or-missing names *)
 Theorem generated_table_names_fresh : forall lower p reserved decls n,
@@ -222,54 +214,85 @@ Theorem lowering_covers_ascii_folding : forall (lower : str -> str) u g,
 Proof. exact lower_distinct_implies_ascii_distinct. Qed.
 Print Assumptions lowering_covers_ascii_folding.
 
-(* ---- column names.  FULL STATEMENT (holds since fix 75c6718), EXACT comparison: the column names at a sub-query split
+(* ---- column names.  `reserved` is the set of reserved COLUMN names: [] for the source without the repair of F33b, the
+   lower-cased names of every column the RQ mentions with it (GenIdentDialect.col_names_reserved says which; code_col_reserved).
+   FULL STATEMENT (holds since fix 75c6718), EXACT comparison, every reserved set: the column names at a sub-query split
    are pairwise distinct, for every list of columns -- wildcards, user columns (also spelled like generated names),
-   already named or unnamed computed columns, which ensure_column_name names WITHOUT any check -- and every generator
-   state; exactly the wildcards stay unnamed *)
-Theorem generated_column_names_fresh : forall p cols n,
-  exists l n', split_names p cols [] n = Some (l, n') /\ NoDup (somes l) /\ length l = length cols /\
+   already named or unnamed computed columns, which ensure_column_name names without a look at the names in use -- and
+   every generator state; exactly the wildcards stay unnamed *)
+Theorem generated_column_names_fresh : forall lower p reserved, (forall k, lower (gen_name p k) = gen_name p k) -> forall cols n,
+  exists l n', split_names lower p reserved cols [] n = Some (l, n') /\ NoDup (somes l) /\ length l = length cols /\
                Forall2 (fun c x => x = None <-> fst c = DWild) cols l.
 Proof. exact split_names_fresh. Qed.
 Print Assumptions generated_column_names_fresh.
 
-Theorem user_column_name_kept : forall p d b nm cs used n l n',
-  ensure_column_name p d b n = (Some nm, n) -> ~ In nm used ->
-  split_names p ((d, b) :: cs) used n = Some (l, n') -> exists l', l = Some nm :: l'.
+Theorem user_column_name_kept : forall lower p reserved d b nm cs used n l n',
+  ensure_column_name lower p reserved d b n = Some (Some nm, n) -> ~ In nm used ->
+  split_names lower p reserved ((d, b) :: cs) used n = Some (l, n') -> exists l', l = Some nm :: l'.
 Proof. exact split_names_keeps. Qed.
 Print Assumptions user_column_name_kept.
 
 (* FULL STATEMENT (holds since fix 755de8e), EXACT comparison: the alias translate_select_item invents for a column without
-   a name is a generated name that differs from every column name in use in the query (column_names.values()) *)
-Theorem generated_alias_fresh : forall p used n,
-  exists nm n', select_item_alias p used n = Some (nm, n') /\ ~ In nm used /\ exists k, n <= k /\ nm = gen_name p k /\ k < n'.
+   a name is a generated name that differs from every column name in use in the query (column_names.values()), and its
+   lower-cased form is not reserved *)
+Theorem generated_alias_fresh : forall lower p reserved, (forall k, lower (gen_name p k) = gen_name p k) -> forall used n,
+  exists nm n', select_item_alias lower p reserved used n = Some (nm, n') /\ ~ In nm used /\
+                ((exists k, nm = gen_name p k) /\ ~ In (lower nm) reserved) /\ exists k, n <= k /\ nm = gen_name p k /\ k < n'.
 Proof. exact select_item_alias_fresh. Qed.
 Print Assumptions generated_alias_fresh.
 
-(* FULL STATEMENT for columns compared CASE-INSENSITIVELY (what SQLite, MySQL, SQL Server do), FALSE of the code -- finding
-   F33b, the column-side rest of F33:
-     forall cols n l n', split_names cprefix cols [] n = Some (l, n') ->
-       forall x y k, In x (somes l) -> In y (somes l) -> x = gen_name cprefix k -> lower_ascii y = lower_ascii x -> y = x
-   A user column that is a case variant of a generated name (_EXPR_0) next to an unnamed computed column. *)
+(* FULL STATEMENT for columns compared CASE-INSENSITIVELY (what SQLite, MySQL, SQL Server do) -- the repair of F33b.
+   If every name that reaches the split from outside is a user name whose lower-cased form is reserved, or a generated,
+   unreserved name (made by an earlier call), then a generated name of the split differs case-insensitively from EVERY
+   other name of the split.  True of the model for every reserved set; it speaks about the code when the reserved set is
+   the one the code has (see generated_column_names_ci below). *)
+Theorem generated_column_names_ci_fresh : forall lower p reserved cols n l n',
+  (forall k, lower (gen_name p k) = gen_name p k) ->
+  (forall u, (exists d b, In (d, b) cols /\ (b = Some u \/ d = DSingle (Some u))) ->
+             In (lower u) reserved \/ ((exists k, u = gen_name p k) /\ ~ In (lower u) reserved)) ->
+  split_names lower p reserved cols [] n = Some (l, n') ->
+  forall x y, In x (somes l) -> In y (somes l) -> ((exists k, x = gen_name p k) /\ ~ In (lower x) reserved) -> x <> y -> lower x <> lower y.
+Proof. exact (fun lower p reserved cols n l n' St => split_names_ci_fresh lower p reserved St cols n l n'). Qed.
+Print Assumptions generated_column_names_ci_fresh.
+
+(* ... and it is FALSE when nothing is reserved (the source without the repair): finding F33b.  A user column that is a
+   case variant of a generated name (_EXPR_0) next to an unnamed computed column. *)
 Theorem generated_column_names_ci_refuted :
-  exists cols n l n', split_names cprefix cols [] n = Some (l, n') /\
-    exists x y k, In x (somes l) /\ In y (somes l) /\ x = gen_name cprefix k /\ lower_ascii y = lower_ascii x /\ y <> x.
+  exists cols n l n', split_names lower_ascii cprefix [] cols [] n = Some (l, n') /\
+    exists x y k, In x (somes l) /\ In y (somes l) /\ x = gen_name cprefix k /\ x <> y /\ lower_ascii x = lower_ascii y.
 Proof.
   exists [(DSingle (Some (upper_ascii cprefix ++ [48])), None); (DCompute, None)], 0.
   eexists _, _. split; [vm_compute; reflexivity|].
   exists (gen_name cprefix 0), (upper_ascii cprefix ++ [48]), 0. vm_compute.
-  split; [right; left; reflexivity|]. split; [left; reflexivity|]. split; [reflexivity|]. split; [reflexivity | discriminate].
+  split; [right; left; reflexivity|]. split; [left; reflexivity|]. split; [reflexivity|]. split; [discriminate | reflexivity].
 Qed.
 Print Assumptions generated_column_names_ci_refuted.
 
-(* PARTIAL: it holds whenever no user column reaching the split is a case variant of a generated name (the spelling of
-   the generated name itself is harmless: exact comparison handles it) *)
-Theorem generated_column_names_ci_partial : forall lower p cols n l n',
+(* PARTIAL (every reserved set, in particular none): it holds whenever no name reaching the split is a case variant of a
+   generated name (the spelling of the generated name itself is harmless: exact comparison handles it) *)
+Theorem generated_column_names_ci_partial : forall lower p reserved cols n l n',
   (forall k, lower (gen_name p k) = gen_name p k) ->
   (forall u k, (exists d b, In (d, b) cols /\ (b = Some u \/ d = DSingle (Some u))) -> lower u = gen_name p k -> u = gen_name p k) ->
-  split_names p cols [] n = Some (l, n') ->
+  split_names lower p reserved cols [] n = Some (l, n') ->
   forall x y k, In x (somes l) -> In y (somes l) -> x = gen_name p k -> lower y = lower x -> y = x.
-Proof. exact split_names_ci_partial. Qed.
+Proof. exact (fun lower p reserved cols n l n' St => split_names_ci_partial lower p reserved St cols n l n'). Qed.
 Print Assumptions generated_column_names_ci_partial.
+
+(* what is true of THE SOURCE AS IT IS (the flag is regenerated from /repo on every run): with the repair the full
+   statement for the reserved set the code builds from the column names of the RQ; without it the refutation *)
+Theorem generated_column_names_ci :
+  if GenIdentDialect.col_names_reserved
+  then forall lower rq_columns cols n l n',
+         (forall k, lower (gen_name cprefix k) = gen_name cprefix k) ->
+         (forall u, (exists d b, In (d, b) cols /\ (b = Some u \/ d = DSingle (Some u))) ->
+                    In u rq_columns \/ ((exists k, u = gen_name cprefix k) /\ ~ In (lower u) (code_col_reserved true lower rq_columns))) ->
+         split_names lower cprefix (code_col_reserved true lower rq_columns) cols [] n = Some (l, n') ->
+         forall x y, In x (somes l) -> In y (somes l) ->
+           ((exists k, x = gen_name cprefix k) /\ ~ In (lower x) (code_col_reserved true lower rq_columns)) -> x <> y -> lower x <> lower y
+  else exists cols n l n', split_names lower_ascii cprefix (code_col_reserved false lower_ascii []) cols [] n = Some (l, n') /\
+         exists x y k, In x (somes l) /\ In y (somes l) /\ x = gen_name cprefix k /\ x <> y /\ lower_ascii x = lower_ascii y.
+Proof. exact (column_ci_status cprefix GenIdentDialect.col_names_reserved _ generated_column_names_ci_refuted). Qed.
+Print Assumptions generated_column_names_ci.
 
 (* ---------------------------------------------------------------- non-vacuity *)
 Example c09_ex_bare : emit {| iq := 34; always_quoted := false; extra_kw := [] |} [97; 95; 49] = [97; 95; 49].            (* a_1 *)
@@ -280,7 +303,7 @@ Example c09_ex_keyword : emit {| iq := 96; always_quoted := false; extra_kw := [
 Proof. vm_compute. reflexivity. Qed.
 Example c09_ex_quote : emit {| iq := 34; always_quoted := false; extra_kw := [] |} [97; 34; 98] = [34; 97; 34; 34; 98; 34].  (* a''b -> ''a''''b'' *)
 Proof. vm_compute. reflexivity. Qed.
-Example c09_ex_regen : regen 5 [116] [[116;48]; [116;49]] None 0 = Some ([116;50], 3).
+Example c09_ex_regen : regen_r 5 lower_ascii [116] [] [[116;48]; [116;49]] None 0 = Some ([116;50], 3).
 Proof. vm_compute. reflexivity. Qed.
 (* a user table TABLE_0 (reserved: table_0) and a CTE without a name: the generator skips table_0 *)
 Example c09_ex_reserved : assign_names lower_ascii tprefix (reserved_of lower_ascii [upper_ascii tprefix ++ [48]]) [Some (upper_ascii tprefix ++ [48]); None] [] 0
@@ -290,13 +313,18 @@ Proof. vm_compute. reflexivity. Qed.
 Example c09_ex_stable : lower_ascii (gen_name tprefix 41) = gen_name tprefix 41 /\ ascii_only (gen_name tprefix 41) = true.
 Proof. vm_compute. split; reflexivity. Qed.
 (* ensure_column_name does not check: an unnamed computed column becomes _expr_0 whatever else is called so ... *)
-Example c09_ex_ensure : ensure_column_name cprefix DCompute None 0 = (Some (gen_name cprefix 0), 1).
+Example c09_ex_ensure : ensure_column_name lower_ascii cprefix [] DCompute None 0 = Some (Some (gen_name cprefix 0), 1).
 Proof. vm_compute. reflexivity. Qed.
 (* ... the split repairs it: user column _expr_0 first, then the computed one, then a second column named _expr_0 *)
-Example c09_ex_split : split_names cprefix [(DSingle (Some (gen_name cprefix 0)), None); (DCompute, None); (DWild, None); (DSingle (Some (gen_name cprefix 0)), None)] [] 0
+Example c09_ex_split : split_names lower_ascii cprefix [] [(DSingle (Some (gen_name cprefix 0)), None); (DCompute, None); (DWild, None); (DSingle (Some (gen_name cprefix 0)), None)] [] 0
                        = Some ([Some (gen_name cprefix 0); Some (gen_name cprefix 1); None; Some (gen_name cprefix 2)], 3).
 Proof. vm_compute. reflexivity. Qed.
-Example c09_ex_alias : select_item_alias cprefix [gen_name cprefix 0; gen_name cprefix 1] 0 = Some (gen_name cprefix 2, 3).
+Example c09_ex_alias : select_item_alias lower_ascii cprefix [] [gen_name cprefix 0; gen_name cprefix 1] 0 = Some (gen_name cprefix 2, 3).
+Proof. vm_compute. reflexivity. Qed.
+(* with the repair: user column _EXPR_0 is reserved as _expr_0, the unnamed computed column becomes _expr_1 *)
+Example c09_ex_split_reserved : split_names lower_ascii cprefix (code_col_reserved true lower_ascii [upper_ascii cprefix ++ [48]])
+                                  [(DSingle (Some (upper_ascii cprefix ++ [48])), None); (DCompute, None)] [] 0
+                                = Some ([Some (upper_ascii cprefix ++ [48]); Some (gen_name cprefix 1)], 2).
 Proof. vm_compute. reflexivity. Qed.
 Example c09_ex_rows : find_dialect [115;113;108;105;116;101] rows = Some ([115;113;108;105;116;101], 34, false).
 Proof. vm_compute. reflexivity. Qed.
